@@ -108,6 +108,7 @@ class Acct(db.Entity):
     tick = Required(int, default=0, volatile=True)
     cap = Optional(int)          # nullable, NULL at the start
     items = Set('Item')
+    card = Optional('Card')      # one-to-one, the column lives in Card
     # hybrid method / property inlined into queries; they read globals of this namespace (C05)
     def rich(self):
         return self.bal >= LIMIT
@@ -126,6 +127,10 @@ class Item(db.Entity):
 class Tag(db.Entity):
     name = Required(str, unique=True)
     items = Set(Item)
+
+class Card(db.Entity):
+    code = Required(str, unique=True)
+    acct = Optional(Acct, column='acct')
 '''
 
 
@@ -153,6 +158,8 @@ def populate_bank(ns, n_acct=3, n_item=2):
             for j in range(n_item):
                 it = ns['Item'](acct=a, tag='i%d_%d' % (i, j), qty=j)
                 it.tags.add(tags[j % 2])
+            ns['Card'](code='c%d' % i, acct=a)
+        ns['Card'](code='c%d' % n_acct)           # a card nobody holds
 
 
 def dump_bank(path):
